@@ -1,11 +1,12 @@
 """C16 — estimators return likelihood maximisers; EM never decreases the likelihood."""
-import glob, json, os
+import glob, json, os, time
 import vlib
 
 TARGETS = ["Base/Num.vo", "Base/Corr.vo", "C16/Model.vo", "C16/Spec.vo", "C16/ProofsMax.vo", "C16/ProofsEM.vo",
            "C16/ProofsModel.vo", "C16/Corr.vo", "C16/ProofsCorr.vo", "C16/ModelHmm.vo", "C16/ProofsBW.vo",
            "C16/ProofsBW2.vo", "C16/ProofsBW3.vo", "C16/ProofsClamp.vo", "C16/Corr2.vo", "C16/ModelVec.vo", "C16/Corr3.vo", "C16/ProofsCorr3.vo", "C16/ProofsVec.vo", "C16/ProofsDet.vo",
            "C16/ModelNest.vo", "C16/ProofsNest.vo", "C16/Corr5.vo",
+           "C16/ModelObj.vo", "C16/ProofsObj.vo", "C16/Corr6.vo",
            "C16/SpecTest.vo", "C16/Props.vo"]
 PROPS = ["C16/Props.v"]
 CORPUS = os.path.join(vlib.ROOT, "corpus/C16/corpus.jsonl")
@@ -17,6 +18,9 @@ VCLAMP_WITNESS = os.path.join(vlib.ROOT, "corpus/C16/vclamp_witness.json")
 KINDS3 = ("vnormal", "sid", "siid", "negbin", "logreg", "emnormal")
 CORPUS5 = os.path.join(vlib.ROOT, "corpus/C16/corpus5.jsonl")
 KINDS5 = ("nest", "summ")
+CORPUS6 = os.path.join(vlib.ROOT, "corpus/C16/corpus6.jsonl")
+SID_WITNESS = os.path.join(vlib.ROOT, "corpus/C16/sid_stale_witness.json")
+KINDS6 = ("seq", "emfinal", "reuse3")
 PARTIAL = ("Theorems are over exact real arithmetic (Coq Reals) about the hand-written models coq/C16/Model.v / ModelHmm.v / ModelVec.v "
            "with ONE worker thread; the step to binary64 is bounded per sampled case only (bit-exact replay of the scalar and the "
            "vector normal estimator, 1e-9 tolerance decided in Q for the log-scale families, the negative binomial closed form, "
@@ -49,7 +53,19 @@ PARTIAL = ("Theorems are over exact real arithmetic (Coq Reals) about the hand-w
            "index maps, linked to the executable summary by summary_index_is_sound and compared with NewMixtureSummarizedDataSet per case; the "
            "HmmSummarizedDataSet (not reachable from any estimator) is not modelled; the nested tie replays the REFERENCE run (no summary) "
            "step by step (Baum-Welch part of the larger HMM cases in binary64) and compares the run on the configuration as given with it "
-           "(error iff the model's guard refuses; otherwise the same trajectory to 1e-7); one leaf family per case, <= 3 leaves per inner mixture.")
+           "(error iff the model's guard refuses; otherwise the same trajectory to 1e-7); one leaf family per case, <= 3 leaves per inner mixture. "
+           "Estimator objects (round 6): the object model ModelObj.v (SetData by reference, Initialize / NewObservation / updateEstimate keeping the "
+           "accumulators on a constructor error / Estimate / EstimateOnData / GetEstimate, caller writes into the installed vector) is ONE text for all "
+           "closed-form scalar estimators and is proved history-independent for EVERY family; the families are instantiated and linked to Model.v's "
+           "estimator functions for normal, exponential, geometric and Poisson (Poisson for gamma of the data's length), NOT for categorical and negative "
+           "binomial (categorical is tied through the recording family only); ONE worker thread; Poisson's NewObservation returning early for x < 0 before "
+           "it touches nil accumulators is not modelled (not generated); bit-exact object replay for normal only, the log-scale families are judged per call "
+           "with the round-1 checks on the observations the model says reached the accumulators; vector normal / scalarId / scalarIid / negative binomial / "
+           "mixture estimators re-used across calls are compared per call with the round-1/3 models and (hunt oracle) bitwise with a NEW object, their "
+           "object-level copy semantics (scalarId / scalarIid copy in SetData) are in the harness, not in a Coq object model; HMM estimators re-used across "
+           "calls are not exercised; known finding F-SID-STALE-FAILURE (scalarId refuses every data set after a failed call). Returned EM mixture: proved for "
+           "the driver model (last hooked mixture; at least as likely as every reported likelihood given an ascending step), compared per case for "
+           "Mixture/DiscreteMixture estimators with Poisson / categorical components only (not for normal-component, nested or HMM runs).")
 
 
 def findings():
@@ -70,7 +86,7 @@ def known_case(case):
 
 
 def corr(ctx, binary, n):
-    for pat in ("r2_*.v", "cert_r2_*.v", "r3_*.v", "cert_r3_*.v", "grad_r3_*.v", "r5_*.v", "cert_r5_*.v"):
+    for pat in ("r2_*.v", "cert_r2_*.v", "r3_*.v", "cert_r3_*.v", "grad_r3_*.v", "r5_*.v", "cert_r5_*.v", "r6_*.v", "cert_r6_*.v"):
         for old in glob.glob(os.path.join(ctx.dir, pat)):
             os.remove(old)
     rc, out = vlib.run_harness(ctx, binary, n, extra=CORPUS)
@@ -80,8 +96,10 @@ def corr(ctx, binary, n):
     rc3, out3 = vlib.run_harness(ctx, binary, n3, extra="round3:" + CORPUS3)
     n5 = 48 if ctx.tier == "quick" else 400
     rc5, out5 = vlib.run_harness(ctx, binary, n5, extra="round5:" + CORPUS5)
-    if rc != 0 or rc2 != 0 or rc3 != 0 or rc5 != 0:
-        ctx.violation({"obligation": "C16 harness run", "log": (out if rc != 0 else out2 if rc2 != 0 else out3 if rc3 != 0 else out5)[-3000:]}, False,
+    n6 = 60 if ctx.tier == "quick" else 600
+    rc6, out6 = vlib.run_harness(ctx, binary, n6, extra="round6:" + CORPUS6)
+    if rc != 0 or rc2 != 0 or rc3 != 0 or rc5 != 0 or rc6 != 0:
+        ctx.violation({"obligation": "C16 harness run", "log": (out if rc != 0 else out2 if rc2 != 0 else out3 if rc3 != 0 else out5 if rc5 != 0 else out6)[-3000:]}, False,
                       "harness failed on the implementation (crash while running the estimators)")
         return [], []
     meta = json.load(open(os.path.join(ctx.dir, "cases.meta.json")))
@@ -92,23 +110,43 @@ def corr(ctx, binary, n):
     vlib.merge_meta(ctx, meta3)
     meta5 = json.load(open(os.path.join(ctx.dir, "r5.meta.json")))
     vlib.merge_meta(ctx, meta5)
+    meta6 = json.load(open(os.path.join(ctx.dir, "r6.meta.json")))
+    vlib.merge_meta(ctx, meta6)
     key = lambda p: int(p.rsplit("_", 1)[1][:-2])
     shards = sorted(glob.glob(os.path.join(ctx.dir, "cases_*.v")), key=key)
     shards2 = sorted(glob.glob(os.path.join(ctx.dir, "r2_*.v")), key=key)
     shards3 = sorted(glob.glob(os.path.join(ctx.dir, "r3_*.v")), key=key)
     shards5 = sorted(glob.glob(os.path.join(ctx.dir, "r5_*.v")), key=key)
+    shards6 = sorted(glob.glob(os.path.join(ctx.dir, "r6_*.v")), key=key)
     certs = sorted(glob.glob(os.path.join(ctx.dir, "cert_*.v")))
     grads = sorted(glob.glob(os.path.join(ctx.dir, "grad_r3_*.v")), key=key)
     entries = ([(p, "s1", k) for k, p in enumerate(shards)] + [(p, "s2", k) for k, p in enumerate(shards2)] +
-               [(p, "s3", k) for k, p in enumerate(shards3)] + [(p, "s5", k) for k, p in enumerate(shards5)] +
+               [(p, "s3", k) for k, p in enumerate(shards3)] + [(p, "s5", k) for k, p in enumerate(shards5)] + [(p, "s6", k) for k, p in enumerate(shards6)] +
                [(p, "cert", 0) for p in certs] +
                [(p, "grad", key(p)) for p in grads])
-    res = vlib.eval_shards([e[0] for e in entries])
+    # scheduling only (never a decision): at most 4 coqc workers when the machine is already loaded (integrator's request)
+    try:
+        jobs = int(os.environ.get("VERIF_COQ_JOBS", "0")) or (4 if os.getloadavg()[0] > vlib.NCPU else vlib.NCPU)
+    except (ValueError, OSError):
+        jobs = 4
+    res = vlib.eval_shards([e[0] for e in entries], timeout=3000, jobs=jobs)   # generous: other builders load the machine
+    # a shard whose coqc died WITHOUT a Coq error message (killed under memory pressure / timed out while other
+    # builders load the machine) is evaluated again, two at a time; a shard with a Coq error or a mismatch is not
+    for attempt in range(3):
+        dead = [i for i, r in enumerate(res) if r["mism"] is None and "Error" not in (r["error"] or "")]
+        if not dead:
+            break
+        ctx.log("re-evaluating %d shard(s) whose coqc died without a Coq error (attempt %d)" % (len(dead), attempt + 1))
+        time.sleep(20 * (attempt + 1))
+        again = vlib.eval_shards([res[i]["path"] for i in dead], timeout=3000, jobs=2)
+        for i, r in zip(dead, again):
+            res[i] = r
     ctx.oblige(len(res), sum(1 for r in res if r["ok"]))
     cases = vlib.load_jsonl(os.path.join(ctx.dir, "cases.jsonl"))
     cases2 = vlib.load_jsonl(os.path.join(ctx.dir, "r2.jsonl"))
     cases3 = vlib.load_jsonl(os.path.join(ctx.dir, "r3.jsonl"))
     cases5 = vlib.load_jsonl(os.path.join(ctx.dir, "r5.jsonl"))
+    cases6 = vlib.load_jsonl(os.path.join(ctx.dir, "r6.jsonl"))
 
     def offsets(sizes):
         off = [0]
@@ -117,6 +155,7 @@ def corr(ctx, binary, n):
         return off
     off2, off3 = offsets(meta2["shard_sizes"]), offsets(meta3["shard_sizes"])
     off5 = offsets(meta5["shard_sizes"])
+    off6 = offsets(meta6["shard_sizes"])
     bad, known = [], []
     for (path, kind, k), r in zip(entries, res):
         if r["ok"]:
@@ -132,7 +171,9 @@ def corr(ctx, binary, n):
                     if kind == "cert" else "correspondence shard did not evaluate")
             ctx.violation({"obligation": "shard " + os.path.basename(r["path"]), "coqc_error": r["error"]}, False, what)
             continue
-        if kind == "s5":
+        if kind == "s6":
+            ms = [cases6[off6[k] + i] for i in r["mism"]]
+        elif kind == "s5":
             ms = [cases5[off5[k] + i] for i in r["mism"]]
         elif kind == "s3":
             ms = [cases3[off3[k] + i] for i in r["mism"]]
@@ -149,9 +190,11 @@ def corr(ctx, binary, n):
         if all(known_case(c) for c in ms):
             ctx.discharged += 1   # every mismatch of the shard is a recorded finding
     ctx.log("correspondence: %d + %d (Baum-Welch) + %d (round 3: vector normal, products, negative binomial, logistic regression, "
-            "normal-mixture EM) + %d (round 5: nested estimators / summarised data) cases in %d shards (+%d exp-table certificates, "
+            "normal-mixture EM) + %d (round 5: nested estimators / summarised data) + %d (round 6: call sequences on one estimator "
+            "object, returned EM mixture, re-used vector estimators) cases in %d shards (+%d exp-table certificates, "
             "%d gradient certificates), %d mismatching, %d known" % (
-        len(cases), len(cases2), len(cases3), len(cases5), len(shards) + len(shards2) + len(shards3) + len(shards5), len(certs),
+        len(cases), len(cases2), len(cases3), len(cases5), len(cases6),
+        len(shards) + len(shards2) + len(shards3) + len(shards5) + len(shards6), len(certs),
         len(grads), len(bad), len(known)))
     for c in bad[:12]:
         ctx.log("  mismatching case: %s" % c.get("tag", c.get("kind")))
@@ -162,14 +205,17 @@ def hunt(ctx, binary, bad):
     rp = os.path.join(ctx.dir, "hunt_in.json")
     lag = json.load(open(LAG_WITNESS)) if os.path.exists(LAG_WITNESS) else None
     vcl = json.load(open(VCLAMP_WITNESS)) if os.path.exists(VCLAMP_WITNESS) else None
-    json.dump({"cases": [c for c in bad if c.get("kind") != "hmm" and c.get("kind") not in KINDS3 + KINDS5][:50],
+    json.dump({"cases": [c for c in bad if c.get("kind") != "hmm" and c.get("kind") not in KINDS3 + KINDS5 + KINDS6][:50],
                "cases5": [c for c in bad if c.get("kind") in KINDS5][:40],
+               "cases6": [c for c in bad if c.get("kind") in KINDS6][:40],
                "cases2": [c for c in bad if c.get("kind") == "hmm"][:20],
                "cases3": [c for c in bad if c.get("kind") in KINDS3][:40],
                "lag_witness": lag, "vclamp_witness": vcl}, open(rp, "w"))
     n = 1500 if ctx.tier == "quick" else 20000
+    env = dict(vlib.go_env())
+    env["C16_SID_WITNESS"] = SID_WITNESS
     rc, out = vlib.sh([binary, "--extra", "hunt", "--replay", rp, "--n", str(n), "--seed", str(ctx.seed),
-                       "--out", ctx.dir], timeout=900, env=vlib.go_env())
+                       "--out", ctx.dir], timeout=900, env=env)
     hp = os.path.join(ctx.dir, "hunt.json")
     if rc == 0 and os.path.exists(hp):
         return json.load(open(hp))
@@ -209,6 +255,13 @@ def run(ctx):
         else:
             ctx.violation({"case": json.load(open(VCLAMP_WITNESS)), "failure": h["vclamp"]}, True,
                           "vector NormalEstimator with an active SigmaMin clamp does not return the constrained maximiser: " + h["vclamp"])
+    if h.get("sidstale"):
+        sf = [f for f in findings() if f.get("match", {}).get("kind") == "scalar_id_stale_failure"]
+        if sf:
+            ctx.known_finding(sf[0]["id"], sf[0]["what"])
+        else:
+            ctx.violation({"case": json.load(open(SID_WITNESS)), "failure": h["sidstale"]}, True,
+                          "scalarId estimator refuses admissible data after an earlier failed call on the same object: " + h["sidstale"])
     found = h.get("found") and not known_case(h.get("case", {}))
     if found:
         ctx.violation({"case": h["case"], "failure": h["failure"],
